@@ -271,17 +271,20 @@ Inductive range_check := RgIn | RgOut | RgExc.
 Fixpoint check_ranges (l : list ritem) (v : Z) : range_check :=
   match l with
   | [] => RgOut
-  | RItemAuto :: _ => RgExc                     (* for min_range, max_range in ('auto',): ValueError *)
+  | RItemAuto :: _ => RgExc                     (* unpacking 'auto' would raise; unreachable through ranges_of *)
   | RItem lo hi :: tl => if le_lo lo v && le_hi v hi then RgIn else check_ranges tl v
   end.
 Definition auto_range (sys : string) : ritem :=
   if String.eqb sys "alphabetic" || String.eqb sys "symbolic" then RItem (BInt 1) BPosInf
   else if String.eqb sys "additive" then RItem (BInt 0) BPosInf
   else RItem BNegInf BPosInf.
+(* if counter['range'] is None or 'auto' in counter['range']: ... else: counter_ranges = counter['range'] *)
+Definition has_auto_item (l : list ritem) : bool :=
+  existsb (fun i => match i with RItemAuto => true | _ => false end) l.
 Definition ranges_of (c : cstyle) (sys : string) : list ritem :=
   match c_range c with
   | None | Some RAuto => [auto_range sys]
-  | Some (RList l) => l
+  | Some (RList l) => if has_auto_item l then [auto_range sys] else l
   end.
 Definition fallback_of (c : cstyle) : string := orelse (c_fallback c) "decimal"%string.
 
@@ -320,7 +323,9 @@ Definition render_resolved (c : cstyle) (sys : string) (fx : option Z) (prev : l
     | RpExc => Done RExc
     | RpFuel => Done RFuel
     | RpDecimal => CallDecimal v'
-    | RpFallback => CallFallback v' (fallback_of c) prev
+    | RpFallback =>
+        (* additive branch: `if is_negative: counter_value = -counter_value` before the fallback call *)
+        CallFallback (if (v <? 0) && String.eqb sys "additive" then - v' else v') (fallback_of c) prev
     | RpInitial t => Done (ROk (finish c use_neg t))
     end
   end.
